@@ -61,6 +61,10 @@ func IsFlagSet(f *asn1.BitString, i int) bool {
 	b := i / 8
 	//Which bit in byte
 	p := uint(7 - (i - 8*b))
+	if i < 0 || b >= len((*f).Bytes) {
+		// A bit string that is too short to hold the flag does not have the flag set
+		return false
+	}
 	if (*f).Bytes[b]&(1<<p) != 0 {
 		return true
 	}
